@@ -217,7 +217,7 @@ std::vector<Field> build()
         f.name = "relative_path";
         f.facts = {"relative_path", "filename", "file_extension"};
         struct P { const char *path, *file, *ext; };
-        for (auto& p : std::vector<P>{{"../a/b c.mp3", "b c.mp3", "mp3"}, {"noext", "noext", ""}, {"dir.d/file.tar.gz", "file.tar.gz", "gz"}})
+        for (auto& p : std::vector<P>{{"../a/b c.mp3", "b c.mp3", "mp3"}, {"noext", "noext", ""}, {"dir.d/file.tar.gz", "file.tar.gz", "gz"}, {"rips.2019/side_a", "side_a", ""}})
         {
             FieldValue fv;
             fv.desc = p.path;
